@@ -559,4 +559,200 @@ theorem C20_code_dup_table_forms (isRelevant : String → Bool) (parseName : Str
   simpa using this
 
 
+/-! ## The code itself: the label checks of `Potential_Form_Registry`
+
+`Atsim.Gen.Logic.build_potential_forms / build_table_forms / check_labels_case` are `_build_potential_forms`, `_build_table_forms` and
+`_check_labels_differ_by_more_than_case` as regenerated on every run (the objects they build are opaque: `mkFunc`, `mkForm`, `mkTable` are handed in).  The order in
+which `__init__` calls them - standard forms, table forms against those, custom forms against both, then the case check - is the hand model `registryClash`. -/
+
+namespace RegistryTieProofs
+open Atsim.Gen.Logic
+
+theorem lookupLast_eq_none_iff {β : Type} (d : List (String × β)) (k : String) :
+    lookupLast d k = none ↔ k ∉ d.map (·.1) := by
+  simp [lookupLast, List.find?_eq_none]
+  constructor
+  · intro h b hb; exact h k b hb rfl
+  · intro h a b hab hak; subst hak; exact h b hab
+
+theorem dupLabels_true_of_not_nodup (l : List String) (h : ¬ l.Nodup) : dupLabels l = true := by
+  cases hd : dupLabels l with
+  | true => rfl
+  | false => exact absurd ((dupLabels_false_iff l).1 hd) h
+
+theorem dupLabels_mid_mem (L R : List String) (x : String) (h : x ∈ L) : dupLabels (L ++ x :: R) = true := by
+  apply dupLabels_true_of_not_nodup
+  intro hn
+  have := List.nodup_append.1 hn
+  exact this.2.2 x h x (by simp) rfl
+
+theorem pf_loop1 (mkFunc : DefRec → FuncObj) (mkForm : FuncObj → FormObj) (c : List DefRec) :
+    ∀ (xs : List DefRec) (acc : List (String × FormObj)), (acc.map (·.1)).Nodup →
+      build_potential_forms_loop1 mkFunc mkForm c acc xs =
+        if dupLabels (acc.map (·.1) ++ xs.map fun d => d.signature.label) then .error RegErr.sameCustomLabel
+        else .ok (acc ++ xs.map fun d => (d.signature.label, mkForm (mkFunc d))) := by
+  intro xs
+  induction xs with
+  | nil =>
+    intro acc h
+    simp [build_potential_forms_loop1, (dupLabels_false_iff _).2 h]
+  | cons x rest ih =>
+    intro acc h
+    rw [build_potential_forms_loop1]
+    cases hl : lookupLast acc x.signature.label with
+    | some f =>
+      have hm : x.signature.label ∈ acc.map (·.1) := by
+        apply Classical.byContradiction; intro hc
+        rw [(lookupLast_eq_none_iff acc _).2 hc] at hl
+        cases hl
+      simp only [List.map_cons]
+      rw [dupLabels_mid_mem _ _ _ hm]
+      rfl
+    | none =>
+      have hm : x.signature.label ∉ acc.map (·.1) := (lookupLast_eq_none_iff acc _).1 hl
+      simp only []
+      rw [ih]
+      · simp
+      · rw [List.map_append, List.nodup_append]
+        refine ⟨h, by simp, ?_⟩
+        intro a ha b hb hab
+        simp at hb
+        subst hb; subst hab
+        exact hm ha
+
+theorem tf_reg_loop1 (mkTable : TDefRec → FormObj) (c : List TDefRec) (existing : List (String × FormObj)) :
+    ∀ (xs : List TDefRec) (acc : List (String × FormObj)), (acc.map (·.1)).Nodup →
+      build_table_forms_loop1 mkTable c existing acc xs =
+        if xs.any (fun d => existing.any fun e => e.1 == d.name) || dupLabels (acc.map (·.1) ++ xs.map fun d => d.name)
+        then .error RegErr.tableLabelTaken
+        else .ok (acc ++ xs.map fun d => (d.name, mkTable d)) := by
+  intro xs
+  induction xs with
+  | nil =>
+    intro acc h
+    simp [build_table_forms_loop1, (dupLabels_false_iff _).2 h]
+  | cons x rest ih =>
+    intro acc h
+    rw [build_table_forms_loop1]
+    cases he : (existing.any fun e => e.1 == x.name) with
+    | true => simp [he]
+    | false =>
+      cases hl : lookupLast acc x.name with
+      | some f =>
+        have hm : x.name ∈ acc.map (·.1) := by
+          apply Classical.byContradiction; intro hc
+          rw [(lookupLast_eq_none_iff acc _).2 hc] at hl
+          cases hl
+        simp only [List.map_cons]
+        rw [dupLabels_mid_mem _ _ _ hm]
+        simp
+      | none =>
+        have hm : x.name ∉ acc.map (·.1) := (lookupLast_eq_none_iff acc _).1 hl
+        simp only [Bool.false_eq_true, if_false]
+        rw [ih]
+        · rw [List.any_cons, he]
+          simp only [Bool.false_or, List.map_append, List.map_cons, List.map_nil, List.append_assoc,
+            List.cons_append, List.nil_append]
+        · rw [List.map_append, List.nodup_append]
+          refine ⟨h, by simp, ?_⟩
+          intro a ha b hb hab
+          simp at hb
+          subst hb; subst hab
+          exact hm ha
+
+theorem lc_loop1 (lower : String → String) (c : List String) :
+    ∀ (xs : List String) (seen : List (String × String)), (seen.map (·.1)).Nodup →
+      check_labels_case_loop1 lower seen c xs =
+        if dupLabels (seen.map (·.1) ++ xs.map lower) then .error RegErr.caseOnlyDifference else .ok () := by
+  intro xs
+  induction xs with
+  | nil =>
+    intro acc h
+    simp [check_labels_case_loop1, (dupLabels_false_iff _).2 h]
+  | cons x rest ih =>
+    intro acc h
+    rw [check_labels_case_loop1]
+    cases hl : lookupLast acc (lower x) with
+    | some f =>
+      have hm : lower x ∈ acc.map (·.1) := by
+        apply Classical.byContradiction; intro hc
+        rw [(lookupLast_eq_none_iff acc _).2 hc] at hl
+        cases hl
+      simp only [List.map_cons]
+      rw [dupLabels_mid_mem _ _ _ hm]
+      rfl
+    | none =>
+      have hm : lower x ∉ acc.map (·.1) := (lookupLast_eq_none_iff acc _).1 hl
+      simp only []
+      rw [ih]
+      · simp
+      · rw [List.map_append, List.nodup_append]
+        refine ⟨h, by simp, ?_⟩
+        intro a ha b hb hab
+        simp at hb
+        subst hb; subst hab
+        exact hm ha
+
+theorem insertBy_perm' {α : Type} (le : α → α → Bool) (x : α) : ∀ l : List α, (insertBy le x l).Perm (x :: l)
+  | [] => by simp [insertBy]
+  | y :: ys => by
+    simp only [insertBy]
+    split
+    · exact ((insertBy_perm' le x ys).cons y).trans (List.Perm.swap x y ys)
+    · exact List.Perm.refl _
+
+theorem foldl_insertBy_perm' {α : Type} (le : α → α → Bool) :
+    ∀ (l acc : List α), (l.foldl (fun acc x => insertBy le x acc) acc).Perm (acc ++ l)
+  | [], acc => by simp
+  | x :: xs, acc => by
+    simp only [List.foldl_cons]
+    refine (foldl_insertBy_perm' le xs _).trans ?_
+    exact ((insertBy_perm' le x acc).append_right xs).trans
+      (by simpa using (List.perm_middle (a := x) (l₁ := acc) (l₂ := xs)).symm)
+
+theorem stableSortBy_perm' {α : Type} (le : α → α → Bool) (l : List α) : (stableSortBy le l).Perm l := by
+  simpa [stableSortBy] using foldl_insertBy_perm' le l []
+
+theorem dupLabels_perm {l₁ l₂ : List String} (h : l₁.Perm l₂) : dupLabels l₁ = dupLabels l₂ := by
+  have h1 := dupLabels_false_iff l₁
+  have h2 := dupLabels_false_iff l₂
+  have := h.nodup_iff
+  cases hd1 : dupLabels l₁ <;> cases hd2 : dupLabels l₂ <;> simp_all
+
+end RegistryTieProofs
+
+open Atsim.Gen.Logic in
+/-- **code tie**: two `[Potential-Form]` entries with one label are refused; otherwise every definition is registered under its label, in order -/
+theorem C20_code_build_potential_forms (mkFunc : DefRec → FuncObj) (mkForm : FuncObj → FormObj) (defs : List DefRec) :
+    build_potential_forms mkFunc mkForm defs =
+      if dupLabels (defs.map fun d => d.signature.label) then .error RegErr.sameCustomLabel
+      else .ok (defs.map fun d => (d.signature.label, mkForm (mkFunc d))) := by
+  unfold build_potential_forms
+  have h := RegistryTieProofs.pf_loop1 mkFunc mkForm defs defs [] (by simp)
+  simp only [List.map_nil, List.nil_append] at h
+  exact h
+
+open Atsim.Gen.Logic in
+/-- **code tie**: a table form is refused when its name is already registered (a standard form) or is the name of an earlier table form -/
+theorem C20_code_build_table_forms (mkTable : TDefRec → FormObj) (existing : List (String × FormObj)) (defs : List TDefRec) :
+    build_table_forms mkTable existing defs =
+      if defs.any (fun d => existing.any fun e => e.1 == d.name) || dupLabels (defs.map fun d => d.name) then .error RegErr.tableLabelTaken
+      else .ok (defs.map fun d => (d.name, mkTable d)) := by
+  unfold build_table_forms
+  have h := RegistryTieProofs.tf_reg_loop1 mkTable defs existing defs [] (by simp)
+  simp only [List.map_nil, List.nil_append] at h
+  exact h
+
+open Atsim.Gen.Logic in
+/-- **code tie**: labels that differ only by case are refused (inside formulas function names are not case-sensitive), whatever the order the labels were registered in -/
+theorem C20_code_check_labels_case (labels : List String) :
+    check_labels_case String.toLower labels =
+      if dupLabels (labels.map String.toLower) then .error RegErr.caseOnlyDifference else .ok () := by
+  unfold check_labels_case
+  have h := RegistryTieProofs.lc_loop1 String.toLower labels
+    (stableSortBy (fun a b => decide (a ≤ b)) labels) [] (by simp)
+  simp only [List.map_nil, List.nil_append] at h
+  rw [h, RegistryTieProofs.dupLabels_perm ((RegistryTieProofs.stableSortBy_perm' _ labels).map String.toLower)]
+
+
 end Atsim.C20
